@@ -73,6 +73,7 @@ Proof.
   - zb; destruct v; constructor; fld.
   - destruct v; constructor; fld.
   - zb; destruct v; constructor; fld.
+  - zb; destruct v; constructor; fld.
 Qed.
 
 Lemma inv_step : forall t s, Inv s -> Inv (step t s).
